@@ -1174,7 +1174,9 @@ class RlWriter:
                 data.append([figures[-1], ""])
             table = Table(data)
             final_nodes.append(table)
-            figures = []
+            # the node that ended the run of figures follows them, and the run is done
+            final_nodes.append(node)
+            should_clear_figures = True
         else:
             if figures:
                 final_nodes.append(figures[0])
